@@ -28,6 +28,7 @@ MAP = [  # (substring of the commit subject, property)
  ("xsi:type could substitute a value of any registered class", "C04"),
  ("xsi:type derivation check accepted", "C04"),
  ("xsi:type could swap one array type for another", "C04"),
+ ("null entry in a list of objects was written as an empty object", "C02"),
  ("dict protocols handed a float to functions declaring an Integer", "C04"),
  ("bare methods over the dict protocols crashed on a simple-typed argument", "C10"),
  ("Date type with a custom format raised AttributeError", "C10"),
